@@ -382,12 +382,38 @@ impl SseDecoder {
         }
 
         match serde_json::from_str::<Value>(&raw) {
+            Ok(value) if json_nesting_exceeds(&value, MAX_FRAME_PAYLOAD_NESTING) => {
+                ParsedEvent::invalid_json(
+                    raw,
+                    format!("payload nested deeper than {MAX_FRAME_PAYLOAD_NESTING} levels"),
+                    self.current_event.clone(),
+                )
+            }
             Ok(value) => {
                 ParsedEvent::event(raw, self.current_event.clone(), value, self.validation)
             }
             Err(err) => ParsedEvent::invalid_json(raw, err.to_string(), self.current_event.clone()),
         }
     }
+}
+
+/// Deepest JSON nesting a payload may have to be embedded in an event frame: the frame adds
+/// levels of its own, and a line nested deeper than the JSON reader's limit (128) can never be
+/// read back, which makes the whole event log unreplayable.
+pub const MAX_FRAME_PAYLOAD_NESTING: usize = 100;
+
+pub fn json_nesting_exceeds(value: &Value, max: usize) -> bool {
+    fn depth_exceeds(value: &Value, depth: usize, max: usize) -> bool {
+        if depth > max {
+            return true;
+        }
+        match value {
+            Value::Array(items) => items.iter().any(|item| depth_exceeds(item, depth + 1, max)),
+            Value::Object(map) => map.values().any(|item| depth_exceeds(item, depth + 1, max)),
+            _ => false,
+        }
+    }
+    depth_exceeds(value, 0, max)
 }
 
 #[cfg(test)]
